@@ -16,14 +16,16 @@ ID = "C05"
 RULE = ("distributions with 1..12 keys, 1..4 topologies, entries 0..6, positive unnormalised weights spanning 1e-3..1e3 "
         "(equal weights and one dominant weight included), motif sizes from {1..5} (all-ones and size-1 columns included), "
         "N in {1,2,3,5,10,100,1000} and random 1..80; RNG seeded, and randrange forced to 0 / N-1 (all extra stubs on one vertex); "
-        "carriers: manual and empirical loaders; non-trivial = at least one column needed extra stubs; "
+        "carriers: manual and empirical loaders; call histories on one loader object: sample, then change the distribution through the public interface "
+        "(jdd setter, in-place edit of the mapping, new observations + create_jdd, motif_sizes setter, create_jdd again), then sample again - the oracle "
+        "always refers to the distribution current at the time of the call; non-trivial = at least one column needed extra stubs; "
         "distinct = SHA-1 of (keys, weights, sizes, N, schedule)")
 ASSUMPTIONS = ["raw draws are observed through random.choices in joint_degree.py; if that hook is not seen the minimality clause "
                "falls back to: every entry dominates some key and the total distance to the nearest dominated keys is at most sum(size_i - 1)",
                "key frequencies: Pearson chi-square two-stage protocol on N=20000"]
-HEADLINE = ["samplings", "columns_needing_stubs", "stubs_added", "choices_hook_seen", "fallback_minimality", "preset_randrange", "downstream_empirical", "downstream_generate", "chi2_tests", "chi2_escalations", "size1_columns"]
+HEADLINE = ["samplings", "history_updates", "weights_checked_at_hook", "columns_needing_stubs", "stubs_added", "choices_hook_seen", "fallback_minimality", "preset_randrange", "downstream_empirical", "downstream_generate", "chi2_tests", "chi2_escalations", "size1_columns"]
 REQUIRED = {t: {"columns_needing_stubs": 50, "choices_hook_or_fallback": 50, "downstream_empirical": 20,
-                "downstream_generate": 20, "chi2_tests": 5, "size1_columns": 10, "preset_randrange": 20} for t in ("quick", "thorough")}
+                "downstream_generate": 20, "chi2_tests": 5, "size1_columns": 10, "preset_randrange": 20, "history_updates": 50} for t in ("quick", "thorough")}
 
 
 def gen_cases(tier, seed):
@@ -56,7 +58,7 @@ def make_dist(rng):
     return T, keys, w, sizes
 
 
-def check_sample(res, L, N, keys, sizes, tap, ctx):
+def check_sample(res, L, N, keys, sizes, tap, ctx, weights=None):
     T = len(sizes)
     n0 = len(tap.log)
     out = sut("sample_jds_from_jdd", L.sample_jds_from_jdd, N)
@@ -79,7 +81,13 @@ def check_sample(res, L, N, keys, sizes, tap, ctx):
         res.count("choices_hook_or_fallback")
         pop, wts, k = ch[0][1]
         if sorted(pop) != sorted(keys):
-            res.violate("population-is-not-the-key-set", got=pop[:10], ctx=ctx); return None
+            res.violate("population-is-not-the-current-key-set", got=pop[:10], ctx=ctx); return None
+        if wts is not None and weights is not None:
+            zw, zm = float(sum(wts)), float(sum(weights))
+            model = dict(zip(keys, weights))
+            if any(abs(w / zw - model[k] / zm) > 1e-9 for k, w in zip(pop, wts)):
+                res.violate("draw-weights-are-not-proportional-to-the-current-distribution", passed=list(zip(pop, wts))[:8], ctx=ctx); return None
+            res.count("weights_checked_at_hook")
         need_any = False
         for i, s in enumerate(sizes):
             r = sum(e[i] for e in raw)
@@ -135,42 +143,96 @@ def run_case(case):
         c = Counter(jds)
         keys = list(c)
         w = [c[k] / len(jds) for k in keys]
+        cur_emp = jds
     ctx = {"keys": keys, "weights": w, "sizes": sizes, "carrier": carrier}
     nontrivial = False
     scheds = []
-    for Nv in rng.sample([1, 2, 3, 5, 10, 100, 1000], 2) + [rng.randint(1, 80)]:
-        preset = rng.choice([None, None, "lo", "hi"])
-        scheds.append((Nv, preset))
-        tap = RandomTap(seed=rng.randrange(1 << 30), preset={"randrange": preset} if preset else None)
-        if preset:
-            res.count("preset_randrange")
-        with installed(tap, "jd") as inst:
-            r = check_sample(res, L, Nv, keys, sizes, tap, dict(ctx, N=Nv, preset=preset))
-        if r is None:
-            break
-        out, raw, need = r
-        nontrivial |= need
-        # the returned sequence is usable wherever the library accepts a joint degree sequence
-        emp = sut("JointDegreeEmpirical(sampled jds)", gcmpy.JointDegreeEmpirical, {N_.JDS: out, N_.MOTIF_SIZES: list(sizes)})
-        res.count("downstream_empirical")
-        if abs(sum(emp.jdd.values()) - 1) > 1e-9:
-            res.violate("downstream-empirical-not-normalised"); break
-        if Nv <= 100:
-            calls = Counter()
+    history = []
+    steps = rng.choice([1, 2, 3, 3])
+    for step in range(steps):
+        if step > 0:
+            # ---- the distribution / configuration is changed through the public interface between two samplings
+            how = rng.choice(["jdd-setter", "in-place", "in-place-weights", "sizes-setter", "recreate"] + (["empirical-setter"] * 2 if carrier == "empirical" else []))
+            history.append(how)
+            res.count("history_updates")
+            res.seen("update_kinds", how)
+            if how == "jdd-setter":
+                T2, keys, w, _ = make_dist(rng)
+                while T2 != T:
+                    T2, keys, w, _ = make_dist(rng)
+                L.jdd = dict(zip(keys, w))
+            elif how == "in-place":
+                d = L.jdd
+                model = dict(zip(keys, w))
+                newk = tuple(rng.randrange(0, 7) for _ in range(T))
+                d[newk] = model[newk] = 10 ** rng.uniform(-1, 2)
+                if len(model) > 1:
+                    drop = rng.choice([k for k in model if k != newk])
+                    del d[drop]; del model[drop]
+                keys, w = list(model), list(model.values())
+            elif how == "in-place-weights":
+                d = L.jdd
+                model = dict(zip(keys, w))
+                for k in list(model):
+                    if rng.random() < 0.6:
+                        d[k] = model[k] = 10 ** rng.uniform(-3, 3)
+                keys, w = list(model), list(model.values())
+            elif how == "sizes-setter":
+                sizes = [rng.choice([1, 2, 3, 4, 5]) for _ in range(T)]
+                L.motif_sizes = list(sizes)
+            elif how == "recreate":
+                sut("create_jdd (again)", L.create_jdd)
+                if carrier == "empirical":
+                    # documented behaviour: the table is rebuilt from the current observations, discarding manual edits
+                    c = Counter(cur_emp)
+                    keys = list(c)
+                    w = [c[k] / len(cur_emp) for k in keys]
+            else:
+                pool = [tuple(rng.randrange(0, 7) for _ in range(T)) for _ in range(rng.randint(1, 6))]
+                jds2 = [rng.choice(pool) for _ in range(rng.randint(1, 30))]
+                L.empirical_jds = jds2
+                cur_emp = jds2
+                sut("create_jdd (after new observations)", L.create_jdd)
+                c = Counter(jds2)
+                keys = list(c)
+                w = [c[k] / len(jds2) for k in keys]
+            ctx = {"keys": keys, "weights": w, "sizes": sizes, "carrier": carrier, "history": list(history)}
+        for Nv in rng.sample([1, 2, 3, 5, 10, 100, 1000], 2 if step == 0 else 1) + [rng.randint(1, 80)]:
+            preset = rng.choice([None, None, "lo", "hi"])
+            scheds.append((Nv, preset))
+            history.append("sample(%d)" % Nv)
+            tap = RandomTap(seed=rng.randrange(1 << 30), preset={"randrange": preset} if preset else None)
+            if preset:
+                res.count("preset_randrange")
+            with installed(tap, "jd") as inst:
+                r = check_sample(res, L, Nv, keys, sizes, tap, dict(ctx, N=Nv, preset=preset), weights=w)
+            if r is None:
+                break
+            out, raw, need = r
+            nontrivial |= need
+            # the returned sequence is usable wherever the library accepts a joint degree sequence
+            emp = sut("JointDegreeEmpirical(sampled jds)", gcmpy.JointDegreeEmpirical, {N_.JDS: out, N_.MOTIF_SIZES: list(sizes)})
+            res.count("downstream_empirical")
+            if abs(sum(emp.jdd.values()) - 1) > 1e-9:
+                res.violate("downstream-empirical-not-normalised"); break
+            if Nv <= 100:
+                calls = Counter()
 
-            def mk(i):
-                def b(vs):
-                    calls[i] += 1
-                    return gcmpy.clique_motif(vs) if len(vs) > 1 else []
-                return b
-            alg = gcmpy.GCMAlgorithmFast({G.MOTIF_SIZES: list(sizes), G.BUILD_FUNCTIONS: [mk(i) for i in range(T)],
-                                          G.EDGE_NAMES: ["t%d" % i for i in range(T)]})
-            with installed(RandomTap(seed=1, keep_log=False), "fast"):
-                el = sut("GCMAlgorithmFast.random_clustered_graph(sampled jds)", alg.random_clustered_graph, out)
-            res.count("downstream_generate")
-            for i, s in enumerate(sizes):
-                if calls[i] != sum(e[i] for e in out) // s:
-                    res.violate("downstream-generation-motif-count", column=i, got=calls[i]); break
+                def mk(i):
+                    def b(vs):
+                        calls[i] += 1
+                        return gcmpy.clique_motif(vs) if len(vs) > 1 else []
+                    return b
+                alg = gcmpy.GCMAlgorithmFast({G.MOTIF_SIZES: list(sizes), G.BUILD_FUNCTIONS: [mk(i) for i in range(T)],
+                                              G.EDGE_NAMES: ["t%d" % i for i in range(T)]})
+                with installed(RandomTap(seed=1, keep_log=False), "fast"):
+                    el = sut("GCMAlgorithmFast.random_clustered_graph(sampled jds)", alg.random_clustered_graph, out)
+                res.count("downstream_generate")
+                for i, s in enumerate(sizes):
+                    if calls[i] != sum(e[i] for e in out) // s:
+                        res.violate("downstream-generation-motif-count", column=i, got=calls[i]); break
+        if res.verdict != "held":
+            break
     # weights: chi-square on the raw draws (or on the returned entries equal to keys)
     if res.verdict == "held" and rng.random() < 0.25 and len(keys) >= 2:
         Z = sum(w)
@@ -187,6 +249,6 @@ def run_case(case):
         if not ok:
             res.violate("key-frequencies-reject-the-weights", info=info, ctx=ctx)
     res.nontrivial = nontrivial
-    res.sample = dict(ctx, schedules=scheds)
+    res.sample = dict(ctx, schedules=scheds, history=history)
     res.digest = digest(res.sample)
     return res
